@@ -40,17 +40,19 @@ func (e treeEngine) Rule() string {
 	}
 	return common + "hover on the shared account agg:all, on the payee aggpayee and on the tag aggtag from EVERY open document. Document i posts 10^(i-1) W to agg:all exactly once, so the hover balance read as a decimal numeral IS the multiset of files aggregated (digit i = how many times file i was counted). Oracle (conservation): digit 1 exactly at the files of the governing tree (open buffers over disk), 0 elsewhere; 'Postings', 'Transactions' counts equal the number of such files. Non-trivial: >= 2 files in the governing tree or a hover from a document other than the root. Distinct: hash of (tree shapes over time, hovered documents)."
 }
-func (treeEngine) Enumerated(string) int           { return 0 }
+func (treeEngine) Enumerated(string) int            { return 0 }
 func (treeEngine) Components() ([]string, []string) { return serverComponents() }
 
 type loc struct {
-	URI            string
-	L, C1, C2      int
+	URI       string
+	L, C1, C2 int
 }
 
 // String shows file, line and start column: that is what is compared.  The end
 // column is exactness of a range inside its line (pure, C08) and not claimed.
-func (l loc) String() string { return fmt.Sprintf("%s@%d:%d", strings.TrimPrefix(l.URI, "file:///sim/ws/"), l.L, l.C1) }
+func (l loc) String() string {
+	return fmt.Sprintf("%s@%d:%d", strings.TrimPrefix(l.URI, "file:///sim/ws/"), l.L, l.C1)
+}
 
 func sortLocs(ls []loc) {
 	sort.Slice(ls, func(i, j int) bool {
@@ -298,7 +300,7 @@ func (e treeEngine) observeRefs(ctx *RunCtx, c *simrt.Chooser, d *Driver, w *JWo
 		var we struct {
 			Changes map[string][]struct {
 				Range   struct{ Start, End struct{ Line, Character int } } `json:"range"`
-				NewText string                                            `json:"newText"`
+				NewText string                                             `json:"newText"`
 			} `json:"changes"`
 		}
 		json.Unmarshal(r.Result, &we)
@@ -318,7 +320,7 @@ func (e treeEngine) observeRefs(ctx *RunCtx, c *simrt.Chooser, d *Driver, w *JWo
 			return false
 		}
 		var ls []struct {
-			URI   string                                            `json:"uri"`
+			URI   string                                             `json:"uri"`
 			Range struct{ Start, End struct{ Line, Character int } } `json:"range"`
 		}
 		json.Unmarshal(r.Result, &ls)
